@@ -98,13 +98,16 @@ pub fn run() -> Report {
         sets.push(vec![*s]);
     }
     for (i, a) in singles.iter().enumerate() {
-        for b in singles.iter().skip(i + 1) {
-            if thorough || (a.height >= 3 || b.height >= 3) {
-                sets.push(vec![*a, *b]);
+        for (j, b) in singles.iter().enumerate().skip(i + 1) {
+            sets.push(vec![*a, *b]);
+            if thorough {
+                for c in singles.iter().skip(j + 1) {
+                    sets.push(vec![*a, *b, *c]);
+                }
             }
         }
     }
-    let forms: Vec<u8> = if thorough { vec![0, 1, 2] } else { vec![0, 1] };
+    let forms: Vec<u8> = vec![0, 1, 2];
     let cbs: Vec<&'static str> = vec!["csvdump", "unspentcsvdump"];
     let mut cases = Vec::new();
     for s in &sets {
@@ -127,8 +130,8 @@ pub fn run() -> Report {
             }
         }
     }
-    rep.rule = "active chain of 5 blocks plus every set of <= 2 extra index records drawn from {header-only (VALID_TREE) at/below/beyond the tip, never-connected stale sibling with data, failed block with data, FAILED_CHILD header, once-active reorged-out 2-block branch, invalidated (FAILED_VALID/FAILED_CHILD, formerly fully validated) 3-block branch reaching above the tip, never-connected blocks with data above the tip}, each competitor at an occupied height in both LevelDB key orders (nonce ground); index histories {log only, header-only-then-upgraded across a compaction, table only}; --end at and just above each competitor's height under 10 HashMap iteration orders (seeds of the deterministic getrandom stream); csvdump and unspentcsvdump; non-trivial = distinct case with >= 1 extra record".into();
-    rep.bound = json!({"active_chain": 5, "extras_per_index": "<=2", "singles": singles.len(), "sets": sets.len(), "cases": cases.len()});
+    rep.rule = "active chain of 5 blocks plus every set of <= 2 (thorough: <= 3) extra index records drawn from {header-only (VALID_TREE) at/below/beyond the tip, never-connected stale sibling with data, failed block with data, FAILED_CHILD header, once-active reorged-out 2-block branch, invalidated (FAILED_VALID/FAILED_CHILD, formerly fully validated) 3-block branch reaching above the tip, never-connected blocks with data above the tip}, each competitor at an occupied height in both LevelDB key orders (nonce ground); index histories {log only, header-only-then-upgraded across a compaction, table only}; --end at and just above each competitor's height under 10 HashMap iteration orders (seeds of the deterministic getrandom stream); csvdump and unspentcsvdump; non-trivial = distinct case with >= 1 extra record".into();
+    rep.bound = json!({"active_chain": 5, "extras_per_index": if thorough { "<=3" } else { "<=2" }, "singles": singles.len(), "sets": sets.len(), "cases": cases.len()});
     rep.not_covered = vec!["two fully validated competing tips of equal height (not decidable from the index alone)".into(), "adversarial header bytes in header-only records".into()];
     let root = refmodel::world::scratch_root();
     let parts = par_fold(
